@@ -315,7 +315,7 @@ def run(chk):
         chk.violation("harness-build", "the correspondence harness does not build against /repo", {"log": out[-4000:]}, found_input=False)
         chk.coverage.update({"evaluations": 0})
         return
-    n_sets, n_ie = (600, 24) if chk.tier == "quick" else (9000, 400)
+    n_sets, n_ie = (800, 32) if chk.tier == "quick" else (6000, 300)
     rc, out, err = vlib.harness_run("geom", ["sets", "--seed", chk.seed, "--n", n_sets], timeout=2400)
     cases = [parse_set(l) for l in out.split("\n") if l.startswith("set ")]
     chk.log("implementation ran %d box sets" % len(cases))
@@ -457,6 +457,13 @@ def run(chk):
         rr = eval_set(boxes) or r
         ff = oracle(rr)
         line = set_line("replay", boxes)
+        if chk.is_known(key):
+            # a known finding writes no violation replay: keep the (shrunk) witness of this run next to the fixed
+            # minimised pair of the corpus so that it can be replayed with ./check C15 --replay
+            with open(os.path.join(chk.out_root, "replay", "C15", "known_geo_difference.json"), "w") as fh:
+                json.dump({"property": "C15", "key": key, "input": line, "decoded": [c08.decoded(b) for b in boxes],
+                           "minimised_pair": "set cfg=replay boxes=0:0:1048576000:1056964608:1065353216;0:0:1048576000:1065353216:1065353216",
+                           "failures": ff, "panic_sites": rr["panic_sites"], "failing_sets_in_this_run": len(group)}, fh, indent=1)
         chk.violation(key, title + ": " + "; ".join(ff[:3]),
                       {"input": line, "decoded": [c08.decoded(b) for b in boxes], "failures": ff,
                        "panic_sites": rr["panic_sites"],
